@@ -23,3 +23,10 @@ with OwnedRandom(0, handlers={"random": lambda t, *a, **k: 0.25}):
 import tempest
 assert os.path.realpath(tempest.__file__).startswith(os.path.realpath(env.REPO))
 print("selftest ok: tempest from", os.path.dirname(tempest.__file__))
+# 4. machinery self-tests (reference models, enumerators, file-system model)
+import subprocess
+r = subprocess.run([sys.executable, os.path.join(os.path.dirname(os.path.dirname(os.path.abspath(__file__))), "tests", "test_machinery.py")], capture_output=True, text=True)
+print(r.stdout.strip())
+if r.returncode != 0:
+    print(r.stderr[-2000:])
+    sys.exit(1)
